@@ -203,7 +203,7 @@ def check_counting(idx, rng, cnt):
         par = {"days": k}
     else:
         m = rng.randint(1, 7)
-        off = rng.randint(0, m - 1)
+        off = rng.randint(0, m - 1) if rng.random() < 0.6 else rng.randint(m, 3 * m + 1)     # an offset beyond n delays the first run further
         a = algos.RunEveryNPeriods(m, offset=off)
         exp = [(i - off) % m == 0 and i >= off for i in range(n)]
         par = {"n": m, "offset": off}
